@@ -1,7 +1,8 @@
 (* C09 — static size and resource figures are true upper bounds. Statements only; proofs in
    Proofs/Ext*.v over the model Ms/ExtModel.v (extra_props.rs, script_size, descriptor weights,
    Plan accounting) and Ms/Sat.v (satisfier). *)
-From Verif Require Import ExecTr TypeCheck ExtModel ExtProofs ExtLemmas ExtThresh ExtSatSide ExtBounds ExtDesc ExtSize ExtExec.
+From Verif Require Import CodecSpec.
+From Verif Require Import ExecTr TypeCheck ExtModel ExtProofs ExtLemmas ExtThresh ExtSatSide ExtBounds ExtTyped ExtDesc ExtSize ExtExec ExtOps ExtCodec.
 Local Open Scope N_scope.
 
 (* ---- the witness bounds (DESIGN 5/C09 wit_bounds) ----
@@ -17,9 +18,7 @@ Local Open Scope N_scope.
    k <= n, an or_i branch without dissatisfaction figure is syntactically never dissatisfied by the
    satisfier ([nostk]), multi_a only in Tap. Satisfaction AND (where a figure exists)
    dissatisfaction are covered, for every asset environment, both modes.
-   PARTIAL: missing for full strength is [type_of m = ROk _ -> ext_safe as_written c m]; the class is
-   evaluated on every generated script of every run instead (evidence: theorem_class_coverage; all
-   of them are inside). *)
+   (Class form; C09_wit_bounds below removes the class for well-typed scripts.) *)
 Theorem C09_wit_bounds_code_partial :
   forall c ke se mall rhs m,
     senv_ok c se -> ksort_len_ok ke -> ext_safe as_written c m = true ->
@@ -27,6 +26,31 @@ Theorem C09_wit_bounds_code_partial :
     /\ dbounded se (dissat_data (ext_of c m)) (fst (sat_dissat ke se mall rhs m)).
 Proof. exact (wit_bounds_gen as_written). Qed.
 Print Assumptions C09_wit_bounds_code_partial.
+
+(* ---- FULL STRENGTH for the code as written: every well-typed script ----
+   [ext_struct_ok c m] is what the constructors and the context rules guarantee and typing does not
+   see: Threshold::new's k <= n for thresh, multi_a / sortedmulti_a only in Tapscript. With it,
+   every well-typed script is in the class ext_safe (Proofs/ExtTyped.v: type `d` => a
+   dissatisfaction figure exists; a missing figure => the satisfier never returns a stack), so the
+   witness bounds hold for every well-typed script, context, asset environment and mode. *)
+Theorem C09_typed_in_class :
+  forall c m t, type_of m = ROk t -> ext_struct_ok c m = true -> ext_safe as_written c m = true.
+Proof. exact typed_ext_safe. Qed.
+Print Assumptions C09_typed_in_class.
+
+Theorem C09_d_has_dissat_figure :
+  forall c m t, type_of m = ROk t -> ext_struct_ok c m = true -> c_dissat (t_corr t) = true ->
+                exists d, dissat_data (ext_of c m) = Some d.
+Proof. exact typed_d_has_dissat_figure. Qed.
+Print Assumptions C09_d_has_dissat_figure.
+
+Theorem C09_wit_bounds :
+  forall c ke se mall rhs m t,
+    senv_ok c se -> ksort_len_ok ke -> type_of m = ROk t -> ext_struct_ok c m = true ->
+    bounded se (sat_data (ext_of c m)) (snd (sat_dissat ke se mall rhs m))
+    /\ dbounded se (dissat_data (ext_of c m)) (fst (sat_dissat ke se mall rhs m)).
+Proof. exact wit_bounds_typed. Qed.
+Print Assumptions C09_wit_bounds.
 
 (* the same for EVERY rule set (any setting of the four switches): which switch a bound needs is
    part of [ext_safe fx c] *)
@@ -135,8 +159,8 @@ Print Assumptions C09_pk_cost_is_size_partial.
 (* ---- executed resources (DESIGN 5/C09 exec_bounds) ----
    PARTIAL. Proved: the instrumented semantics used by the per-run oracle computes the same final
    state as the Script semantics (so its counters describe the real execution), for all scripts,
-   states and traces. NOT proved: executed multisig keys <= max_exec_op_count and stack depth <=
-   max_witness_stack_count + max_exec_stack_count for every satisfaction; these are judged per run
+   states and traces; the op-count bound follows below (C09_exec_ops). NOT proved: stack depth <=
+   max_witness_stack_count + max_exec_stack_count for every satisfaction; it is judged per run
    on every satisfaction the implementation returns (sat engine | extracted exec_tr); that oracle
    found the multi and thresh exec-stack defects repaired by /repo 1919c6c7 and 0676c51a. *)
 Theorem C09_exec_tr_agrees_partial :
@@ -147,6 +171,70 @@ Theorem C09_exec_tr_agrees_partial :
     end.
 Proof. exact exec_tr_agrees. Qed.
 Print Assumptions C09_exec_tr_agrees_partial.
+
+(* ---- executed opcode count (DESIGN 5/C09 exec_bounds, op-count half) ----
+   For EVERY successful execution of the encoded script — any environment, any initial stack, hence
+   every satisfaction the satisfier can return — the consensus opcode count (all opcodes above OP_16
+   of the script, executed or not, plus the keys of every executed CHECKMULTISIG, measured by the
+   instrumented semantics) is at most static_ops + ast_cms, where ast_cms is the all-paths multisig
+   key bound of the AST. Contexts with an opcode limit (no multi_a), multi with at most 20 keys. *)
+Theorem C09_exec_ops :
+  forall fx c ke m e st t st' t',
+    no_multi_a m = true -> multi_small m = true ->
+    exec_tr e (enc ke m) st t = Ok (st', t') ->
+    count_ops (enc ke m) + (tr_cms t' - tr_cms t) <= static_ops (ext_of_gen fx c m) + ast_cms m.
+Proof. exact exec_ops_bound. Qed.
+Print Assumptions C09_exec_ops.
+
+(* ... which is within the library's figure static_ops + max_exec_op_count on the computable class
+   ops_covered (all-paths bound <= figure). PARTIAL: the class contains every script without
+   multi/sortedmulti (C09_ops_covered_cms_free) and, per run, is evaluated on every generated script
+   (evidence: ops_class_coverage); outside it are scripts where a multisig sits on a path that no
+   satisfaction takes (e.g. under d:/j: on the dissatisfied side, or in an unsatisfiable branch). *)
+Theorem C09_exec_ops_within_figure_partial :
+  forall fx c ke m e st t st' t',
+    no_multi_a m = true -> multi_small m = true -> ops_covered fx c m = true ->
+    exec_tr e (enc ke m) st t = Ok (st', t') ->
+    exists n, sat_op_count (ext_of_gen fx c m) = Some n
+              /\ count_ops (enc ke m) + (tr_cms t' - tr_cms t) <= n.
+Proof. exact exec_ops_within_figure. Qed.
+Print Assumptions C09_exec_ops_within_figure_partial.
+
+Theorem C09_ops_covered_cms_free :
+  forall fx c m, cms_free m = true -> sat_data (ext_of_gen fx c m) <> None -> ops_covered fx c m = true.
+Proof. exact cms_free_covered. Qed.
+Print Assumptions C09_ops_covered_cms_free.
+
+Example C09_ops_nonvacuous :
+  ops_covered as_written cx_segwit (MAndV (MVerify (MCheck (MPkK 0))) (MMulti 2 [1; 2; 3])) = true
+  /\ ops_covered as_written cx_segwit (MOrB (MMulti 1 [1; 2]) (MAlt (MMulti 2 [3; 4; 5]))) = true
+  /\ ast_cms (MOrB (MMulti 1 [1; 2]) (MAlt (MMulti 2 [3; 4; 5]))) = 5.
+Proof. vm_compute. auto. Qed.
+
+(* ---- against the REAL encoded length (C04: script_size_ok) ----
+   Miniscript::script_size and, for every fragment a context admits, ExtData::pk_cost are the length
+   of the encoding; the descriptor weight bound is stated over blen (encode ke m) for every
+   well-typed well-formed script (no class, no model script size left in the statement). *)
+Theorem C09_script_size_is_len :
+  forall fx c ke m, ksort_ok ke -> ms_wf c ke m -> blen (encode ke m) = script_size_gen fx (xctx_of c ke) m.
+Proof. exact ext_script_size_is_len. Qed.
+Print Assumptions C09_script_size_is_len.
+
+Theorem C09_pk_cost_is_len :
+  forall c ke m, ksort_ok ke -> ms_wf c ke m -> ctx_frag_ok c m = true ->
+                 pk_cost (ext_of (xctx_of c ke) m) = blen (encode ke m).
+Proof. exact ext_pk_cost_is_len. Qed.
+Print Assumptions C09_pk_cost_is_len.
+
+Theorem C09_desc_weight :
+  forall dk c ke se mall rhs m t l,
+    senv_ok (xctx_of c ke) se -> ksort_ok ke -> ms_wf c ke m ->
+    type_of m = ROk t -> ext_struct_ok (xctx_of c ke) m = true -> se_tap se = false ->
+    s_stack (snd (sat_dissat ke se mall rhs m)) = WStack l ->
+    exists w, desc_weight as_written dk (xctx_of c ke) m = Some w
+              /\ desc_measured dk se l (blen (encode ke m)) <= w.
+Proof. exact desc_weight_bound_len. Qed.
+Print Assumptions C09_desc_weight.
 
 (* ---- Plan accounting (DESIGN 5/C09 plan_sizes): "announced >= real" is refuted three ways for
    the accounting as written (findings plan:omits-script, plan:shwsh-scriptsig-push,
